@@ -75,7 +75,7 @@ Qed.
    changed (was stamped) after it last ran *)
 Lemma is_stale_spec s x :
   n_valid x = true ->
-  match n_kind x with KVar _ | KConst _ => False | _ => True end ->
+  match n_kind x with KVar _ | KConst _ | KExpert _ => False | _ => True end ->
   is_stale s x = bool_decide (n_recomputed_at x = -1)
                  || existsb (fun c => match nodes s !! c with
                                       | Some cx => bool_decide (n_recomputed_at x < n_changed_at cx)
